@@ -120,6 +120,9 @@ def memo_stores(fn: ast.FunctionDef):
     if isinstance(fn, ast.Lambda):
         return
     loc = _locals(fn) | set(func_params(fn))
+    # a dict handed in by the caller and filled here outlives this call as well (a memo shared by the caller's loop)
+    memo_params = {p for p, a in _param_annotations(fn).items()
+                   if a is not None and norm(a).split("[")[0].split(".")[-1] in ("dict", "Dict", "MutableMapping", "defaultdict")}
     stores = []
     for n in walk_no_nested(fn, include_root=False):
         if isinstance(n, ast.Assign):
@@ -128,7 +131,8 @@ def memo_stores(fn: ast.FunctionDef):
                 if isinstance(t, ast.Subscript):
                     base = t.value
                     persistent = (isinstance(base, ast.Attribute) and norm(base.value) in ("self", "cls")) or \
-                                 (isinstance(base, ast.Name) and base.id not in loc)
+                                 (isinstance(base, ast.Name) and base.id not in loc) or \
+                                 (isinstance(base, ast.Name) and base.id in memo_params)
                     if persistent:
                         stores.append((n, t, n.value))
     if not stores:
@@ -257,6 +261,14 @@ def check(repo: Repo, res: CheckResult, prop: str, only: Optional[Tuple[str, ...
                 deps = param_deps(fn, val, params)
                 keys = param_deps(fn, tgt.slice, params)
                 missing = deps - keys
+                if not missing:
+                    proj = _projected(fn, val, tgt.slice, params)
+                    if proj:
+                        res.add(Finding(prop, "MEMO.key-projects-dependency", m.rel, q, norm(st)[:100],
+                                        f"`{norm(tgt)}`: the value is computed from {[a for a, _b in proj]} but the key keeps only "
+                                        f"{[b for _a, b in proj]}: two requests that agree on that projection and differ elsewhere (two fields "
+                                        "of the same type pair with different location-bound recipe entries) share the entry", st.lineno))
+                        continue
                 if missing:
                     res.add(Finding(prop, "MEMO.key-omits-dependency", m.rel, q, norm(st)[:100],
                                     f"`{norm(tgt)}` memoises a value computed from {sorted(deps)} under a key made of {sorted(keys)} only: "
@@ -303,4 +315,60 @@ def _assigned_values(fn: ast.AST, name: str) -> List[ast.AST]:
     for n in walk_no_nested(fn, include_root=False):
         if isinstance(n, ast.Assign) and any(isinstance(t, ast.Name) and t.id == name for t in n.targets):
             out.append(n.value)
+    return out
+
+
+def _chains(fn: ast.AST, e: ast.AST, params: Set[str]) -> Set[str]:
+    """maximal attribute chains rooted at a parameter that `e` (through local assignments) reads"""
+    assigns: Dict[str, List[ast.AST]] = {}
+    for n in walk_no_nested(fn, include_root=False):
+        if isinstance(n, ast.Assign):
+            for t in n.targets:
+                if isinstance(t, ast.Name):
+                    assigns.setdefault(t.id, []).append(n.value)
+    out: Set[str] = set()
+    seen: Set[str] = set()
+    todo = [e]
+    while todo:
+        x = todo.pop()
+        inner_ids = set()
+        for a in ast.walk(x):
+            if isinstance(a, ast.Attribute):
+                b = a
+                while isinstance(b, ast.Attribute):
+                    b = b.value
+                if isinstance(b, ast.Name) and b.id in params:
+                    # keep only maximal chains: skip if `a` is itself the value of a longer attribute
+                    inner_ids.add(id(a.value))
+        for a in ast.walk(x):
+            if isinstance(a, ast.Attribute) and id(a) not in inner_ids:
+                b = a
+                while isinstance(b, ast.Attribute):
+                    b = b.value
+                if isinstance(b, ast.Name) and b.id in params:
+                    out.add(norm(a))
+            elif isinstance(a, ast.Name):
+                if a.id in params and id(a) not in inner_ids:
+                    out.add(a.id)
+                elif a.id in assigns and a.id not in seen:
+                    seen.add(a.id)
+                    todo += assigns[a.id]
+    return {c for c in out if c.split(".")[0] not in ("self", "cls")}
+
+
+def _projected(fn: ast.AST, val: ast.AST, key: ast.AST, params: Set[str]) -> List[Tuple[str, str]]:
+    """(value chain, key chain) pairs where the key reads a strict projection (longer attribute path) of what the value reads"""
+    vch = _chains(fn, val, params)
+    kch = _chains(fn, key, params)
+    out = []
+    for v in sorted(vch):
+        root = v.split(".")[0]
+        ks = [k for k in kch if k.split(".")[0] == root]
+        if not ks:
+            continue
+        if any(k == v or v.startswith(k + ".") for k in ks):
+            continue       # the key holds the same or a larger object
+        narrower = [k for k in ks if k.startswith(v + ".")]
+        if narrower:
+            out.append((v, sorted(narrower)[0]))
     return out
